@@ -3,6 +3,7 @@ package bcl
 import (
 	"fmt"
 	"reflect"
+	"sort"
 	"strings"
 	"unicode"
 	"unicode/utf8"
@@ -72,6 +73,8 @@ func copyBlock(v reflect.Value, block Block) error {
 		}
 	}
 
+	stored := map[string]string{} // struct field index path -> block key stored there
+
 	setField := func(name string, x any) error {
 		var f reflect.StructField
 		var ok bool
@@ -97,6 +100,13 @@ func copyBlock(v reflect.Value, block Block) error {
 
 		if x == nil {
 			return fmt.Errorf("block.%s has nil value", name)
+		}
+		if name != "Name" || block.Name != "" {
+			path := fmt.Sprint(f.Index)
+			if prev, dup := stored[path]; dup {
+				return fmt.Errorf("struct.%s is mapped from both block.%s and block.%s", f.Name, prev, name)
+			}
+			stored[path] = name
 		}
 		fv, err := v.FieldByIndexErr(f.Index)
 		if err != nil {
@@ -127,8 +137,13 @@ func copyBlock(v reflect.Value, block Block) error {
 		return err
 	}
 fields:
-	for fkey, fval := range block.Fields {
-		err = setField(fkey, fval)
+	fkeys := make([]string, 0, len(block.Fields))
+	for fkey := range block.Fields {
+		fkeys = append(fkeys, fkey)
+	}
+	sort.Strings(fkeys) // fixed order, so that the outcome does not depend on map iteration
+	for _, fkey := range fkeys {
+		err = setField(fkey, block.Fields[fkey])
 		if err != nil {
 			return err
 		}
